@@ -19,25 +19,32 @@ mod verif_bounded_mdk {
     #[derive(Debug, PartialEq, Clone)]
     struct Fingerprint {
         epoch: Option<u64>, name: Option<String>, description: Option<String>, state: Option<String>, nostr_group_id: Option<[u8; 32]>, admins: Option<usize>,
-        members: Option<BTreeSet<String>>, relays: Option<BTreeSet<String>>, messages: Vec<(String, String, Option<u64>)>, last_message: Option<String>,
+        members: Option<BTreeSet<String>>, relays: Option<BTreeSet<String>>, messages: Vec<(String, String, Option<u64>)>,
+        // the pointer itself is NOT compared between the clients: with equal created_at the order is decided by processed_at, each client's own
+        // wall clock (two messages processed across a second boundary on one client only) -- compared is whether it heads the client's own listing
+        // of the messages that are not invalidated (the C18 sentence about the pointer)
+        last_message_heads_own_listing: Option<bool>,
+        detail: String,   // not compared; printed with a difference
     }
     fn fp<S: MdkStorageProvider>(m: &MDK<S>, gid: &GroupId) -> Fingerprint {
         let g = m.get_group(gid).ok().flatten();
         let mut messages: Vec<(String, String, Option<u64>)> = m.get_messages(gid, None).unwrap_or_default().into_iter().map(|x| (x.id.to_hex(), format!("{:?}", x.state), x.epoch)).collect();
-        let listed_first = messages.first().map(|x| x.0.clone());
+        let listed_first = messages.iter().find(|x| x.1 != "EpochInvalidated").map(|x| x.0.clone());   // C18: first of the default order among the not invalidated
+        let detail = format!("pointer {:?} at {:?}/{:?}; listing (id, created_at, processed_at, state) {:?}", g.as_ref().and_then(|g| g.last_message_id.map(|i| i.to_hex()[..6].to_string())), g.as_ref().and_then(|g| g.last_message_at), g.as_ref().and_then(|g| g.last_message_processed_at),
+            m.get_messages(gid, None).unwrap_or_default().iter().map(|x| (x.id.to_hex()[..6].to_string(), x.created_at.as_secs(), x.processed_at.as_secs(), format!("{:?}", x.state))).collect::<Vec<_>>());
         messages.sort();
-        let _ = listed_first;
         Fingerprint {
             epoch: g.as_ref().map(|g| g.epoch), name: g.as_ref().map(|g| g.name.clone()), description: g.as_ref().map(|g| g.description.clone()), state: g.as_ref().map(|g| format!("{:?}", g.state)),
             nostr_group_id: g.as_ref().map(|g| g.nostr_group_id), admins: g.as_ref().map(|g| g.admin_pubkeys.len()),
             members: m.get_members(gid).ok().map(|s| s.into_iter().map(|p| p.to_hex()).collect()), relays: m.get_relays(gid).ok().map(|s| s.into_iter().map(|r| r.to_string()).collect()),
-            messages, last_message: g.as_ref().and_then(|g| g.last_message_id.map(|i| i.to_hex())),
+            last_message_heads_own_listing: g.as_ref().map(|g| g.last_message_id.map(|i| i.to_hex()) == listed_first), messages, detail,
         }
     }
     fn diff(a: &Fingerprint, b: &Fingerprint) -> String {
         let mut d = vec![];
         macro_rules! f { ($n:ident) => { if a.$n != b.$n { d.push(format!("{}: memory-backed {:?} / SQLite-backed {:?}", stringify!($n), a.$n, b.$n)); } } }
-        f!(epoch); f!(name); f!(description); f!(state); f!(nostr_group_id); f!(admins); f!(members); f!(relays); f!(last_message);
+        f!(epoch); f!(name); f!(description); f!(state); f!(nostr_group_id); f!(admins); f!(members); f!(relays); f!(last_message_heads_own_listing);
+        if a.last_message_heads_own_listing != b.last_message_heads_own_listing { d.push(format!("memory-backed: {} / SQLite-backed: {}", a.detail, b.detail)); }
         if a.messages != b.messages {
             let only_a: Vec<_> = a.messages.iter().filter(|m| !b.messages.contains(m)).collect(); let only_b: Vec<_> = b.messages.iter().filter(|m| !a.messages.contains(m)).collect();
             d.push(format!("messages (id, state, epoch) only on the memory-backed client {:?} / only on the SQLite-backed client {:?}", only_a, only_b));
@@ -68,7 +75,10 @@ mod verif_bounded_mdk {
             if rm != rs { panic!("BOUNDED-COUNTEREXAMPLE {label}: scenario [history: {}] process_message answered {rm:?} on the memory-backed client and {rs:?} on the SQLite-backed client", self.log.join(" ; ")); }
             let (fm, fs) = (fp(&self.mem, &self.gid), fp(&self.sql, &self.gid));
             // the two bystanders are different members: their own identity is in both member sets, so the fingerprints are comparable as they are
-            if fm != fs { panic!("BOUNDED-COUNTEREXAMPLE {label}: scenario [history: {}] the two bystanders differ afterwards: {}", self.log.join(" ; "), diff(&fm, &fs)); }
+            if !diff(&fm, &fs).is_empty() { panic!("BOUNDED-COUNTEREXAMPLE {label}: scenario [history: {}] the two bystanders differ afterwards: {}", self.log.join(" ; "), diff(&fm, &fs)); }
+            for (who, f) in [("memory-backed", &fm), ("SQLite-backed", &fs)] {
+                if f.last_message_heads_own_listing == Some(false) { panic!("BOUNDED-COUNTEREXAMPLE {label}: scenario [history: {}] the last-message pointer of the {who} client is not the first not-invalidated message of its default listing: {}", self.log.join(" ; "), f.detail); }
+            }
         }
         fn alice_msg(&mut self, label: &str, text: &str) -> Event { let e = self.a.create_message(&self.gid, create_test_rumor(&self.ak, text)).unwrap(); self.deliver(label, &format!("alice sends {text:?}"), &e); e }
     }
@@ -139,7 +149,7 @@ mod verif_bounded_mdk {
                 log.push(what.to_string());
                 if rm != rs { panic!("BOUNDED-COUNTEREXAMPLE {label}: scenario [history: {}] process_message answered {rm:?} on the memory-backed client (never restarted) and {rs:?} on the SQLite-backed client (restarted where noted)", log.join(" ; ")); }
                 let (fm, fs) = (fp(&mem, &gid), fp(sql, &gid));
-                if fm != fs { panic!("BOUNDED-COUNTEREXAMPLE {label}: scenario [history: {}] the two bystanders differ afterwards (memory-backed never restarted): {}", log.join(" ; "), diff(&fm, &fs)); }
+                if !diff(&fm, &fs).is_empty() { panic!("BOUNDED-COUNTEREXAMPLE {label}: scenario [history: {}] the two bystanders differ afterwards (memory-backed never restarted): {}", log.join(" ; "), diff(&fm, &fs)); }
             };
             let m1 = a.create_message(&gid, create_test_rumor(&ak, "m1")).unwrap(); deliver(&sql, &mut log, "alice sends m1", &m1);
             let c1 = a.update_group_data(&gid, NostrGroupDataUpdate::new().name("one".to_string())).unwrap().evolution_event;
